@@ -11,6 +11,7 @@ import macho as _macho
 import magic as _magic
 import xap as _xap
 import dmg as _dmg
+import xar as _xar
 
 TIE = "corr:c11"
 TIE_THEOREM = ("Relic.Model.{PE,ApkBlock,CsBlob,Binpatch} vs lib/authenticode, signers/apk, lib/fruit/csblob, lib/signxap, lib/binpatch "
@@ -46,7 +47,10 @@ UNPROVED = ["no_panic_full (∀ bs, every entry point returns ok/err): false on 
             "macho_no_panic_full (parseCodeDirectory / PatchSignature / VerifyPages): false on the unchanged tree (witnesses in Props/C11_MachO.lean, "
             "listed findings F12-panic-csblob.parseCodeDirectory, F12-panic-machos.PatchSignature); proved: scan_no_panic, "
             "parseCodeDirectory_panic_only_if, parseCodeDirectory_no_panic_of_fit",
-            "terminates_full for comdoc chain walks: false (no visited set): listed as known findings, not modelled"]
+            "terminates_full for comdoc chain walks: false (no visited set): listed as known findings, not modelled",
+            "xar_no_panic_full / xar_alloc_bounded_full / xar_patch_entries_bounded_full: false on the unchanged tree (xar_open_panic_iff, "
+            "xar_alloc_request_not_bounded_by_file, xar_patch_entries_unbounded; listed findings F12-panic-xar.Open, F13-alloc-xar.Open, "
+            "F13-alloc-xar.Sign); proved: xar_verify_no_new_panic, xar_sign_no_panic, xar_open_no_diverge"]
 IMPL_PARALLEL = 12
 IMPL_TIMEOUT = 3000
 
@@ -73,6 +77,8 @@ def canon_model(op, mres):
         return _xap.canon_model(op, mres)
     if _tok(op) == "DMG":
         return _dmg.canon_model(op, mres)
+    if _tok(op) == "XAR":
+        return _xar.canon_model(op, mres)
     return mres
 
 
@@ -97,6 +103,8 @@ def agree(op, il, mres, tag):
         return _xap.equiv(op, il, mres)
     if t == "DMG":
         return _dmg.equiv(op, il, mres)
+    if t == "XAR":
+        return _xar.equiv(op, il, mres)
     if t == "C11":
         return mres == "safe" and il in ("ok", "err")
     if t in MODEL_TOKENS:
@@ -119,6 +127,8 @@ def weight(op):
         return _xap.weight(op)
     if _tok(op) == "DMG":
         return _dmg.weight(op)
+    if _tok(op) == "XAR":
+        return _xar.weight(op)
     return _pe.weight(op) if _tok(op) == "PE" else (_macho.weight(op) if _tok(op) == "MACHO" else 1)
 
 
@@ -136,6 +146,8 @@ def nontrivial(op, mres, tag):
         return _xap.nontrivial(op, mres, tag)
     if t == "DMG":
         return _dmg.nontrivial(op, mres, tag)
+    if t == "XAR":
+        return _xar.nontrivial(op, mres, tag)
     if t == "C11":
         f = op.split(" ")
         return len(f) == 5 and (f[4] != "-" or f[3].startswith(("hex:", "appxpe:", "tx:")))
@@ -156,6 +168,8 @@ def branch(op, mres, tag):
         return _xap.branch(op, mres, tag)
     if t == "DMG":
         return _dmg.branch(op, mres, tag)
+    if t == "XAR":
+        return _xar.branch(op, mres, tag)
     f = op.split(" ")
     if t == "C11":
         return "%s:%s" % (f[1], f[2])
@@ -195,6 +209,8 @@ def predicate(op, il, mres, tag):
         if r is None and il.startswith(("abort", "timeout", "alloc", "harness-error")):
             return ("Relic.Props.C11 (dmg %s)" % il.split(" ")[0], mres, "UDIF trailer / signature parser: " + il)
         return r
+    if t == "XAR":
+        return _xar.predicate("C11", op, il, mres, tag)
     if il.startswith(BAD) or (t == "C11" and il not in ("ok", "err")):
         what = il.split(" ")[0]
         names = {"panic": "no_panic", "abort": "no_process_abort", "timeout": "terminates", "alloc": "alloc_bounded"}
@@ -222,6 +238,8 @@ def matches_known(k, op, il, mres, tag):
         return _xap.matches_known(k, op, il, mres, tag)
     if _tok(op) == "DMG":
         return _dmg.matches_known(k, op, il, mres, tag)
+    if _tok(op) == "XAR":
+        return _xar.matches_known(k, op, il, mres, tag)
     if outcome == "alloc" and il == "timeout":
         # a multi-GiB request may also run into the deadline while the pages are being zeroed: same finding, same entry points
         return _entry(op) in ident.get("entries", [])
